@@ -91,7 +91,7 @@ pub fn random_histories(ctx: &mut Ctx, count: u64, min_len: usize, max_len: usiz
     if ks.is_empty() {
         return;
     }
-    let count = ctx.vol(count);
+    let count = if cfg!(miri) { count } else { ctx.vol(count) };
     for i in 0..count {
         if !ctx.mine(i) {
             continue;
@@ -548,8 +548,15 @@ pub fn c11(ctx: &mut Ctx) {
 pub fn c03_hist_part(ctx: &mut Ctx) {
     let opts = RunOpts::default();
     let q = ctx.quick();
+    if cfg!(miri) {
+        // seeded short Toy histories with the complete accessor sweep, until the deadline
+        random_histories(ctx, 1_000_000_000, 2, 5, &opts, &all);
+        return;
+    }
     exhaustive_len1(ctx, false, &opts, &all);
+    if std::env::var("ENRMON_DEBUG").is_ok() { eprintln!("c03: len1 done {:?}", ctx.start.elapsed()); }
     builder_plans(ctx, &opts);
+    if std::env::var("ENRMON_DEBUG").is_ok() { eprintln!("c03: builder done {:?}", ctx.start.elapsed()); }
     if !q {
         exhaustive_sub(ctx, 2, &["built-typical", "decoded-nested"], &opts, &all);
     }
